@@ -303,22 +303,20 @@ def get_args(names, case, ctx):
 
 
 class Names:
-    """replacement of sympde.core.utils.random_string (which draws from SystemRandom).  Streams are written
-    "A" / "z" (every draw returns AAAA / zzzz) or "z+" (distinct draws zzza, zzzb, ...): upper-case names sort
-    before the user's symbols, lower-case z names after them."""
+    """replacement of sympde.core.utils.random_string (which draws from SystemRandom): DISTINCT draws whose first
+    letter is forced (Aaab, Aaac, ... / zaab, zaac, ...): upper-case names sort before the user's symbols, lower-case
+    z names after them.  (Identical draws would make two arguments of a product group share their l_/r_ functions.)"""
 
     def __init__(self, tag):
-        self.letter, self.uniq, self.k = tag[0], tag.endswith("+"), 0
+        self.letter, self.k = tag[0], 0
 
     def __call__(self, n):
-        if not self.uniq:
-            return self.letter * n
         self.k += 1
         k, s = self.k, ""
-        while k:
+        for _ in range(max(n - 1, 1)):
             s = chr(ord("a") + k % 26) + s
             k //= 26
-        return (self.letter * n)[: max(n - len(s), 1)] + s
+        return (self.letter + s)[:max(n, 2)]
 
 
 def construct(case, tests, trials, expr, tag):
@@ -394,7 +392,7 @@ def run_case(case):
     verdict, info = construct(case, tests, trials, expr, "z")
     out["verdict"] = verdict
     out.update(info)
-    out["verdict_other_names"] = [construct(case, tests, trials, expr, tag)[0] for tag in ("A", "z+")]
+    out["verdict_other_names"] = [construct(case, tests, trials, expr, tag)[0] for tag in ("A", "m")]
     out["t_form"] = round(time.time() - t2, 2)
     out["expr"] = str(expr)[:600]
     return out
